@@ -56,3 +56,12 @@ U("c14_preamble_start", ["C14"], "h_preamble", ["C14/preamble.c"], ["opml.c"], p
   defines=["-DI18N_DISABLED=1"], cbmc_flags=["--unwind", "6", "--unwinding-assertions", "--object-bits", "10"],
   bounds={"leading blocks": "0..3 (types symbolic)", "unwind": 6}, functions=["mmd_check_preamble_opml"],
   callees={"stack_push": "contract stub recording the pushed block", "d_string_append*": "no-op stubs"}, min_obligations=5, timeout=200, cost=3, assumptions=[NOFAIL])
+
+# ---- outline -> text on an engine: the converted text is returned and the engine holds the original outline again
+for _nm, _d in (("opml", []), ("itmz", ["-DITMZ"])):
+    U("c14_%s_to_text_restores_engine" % _nm, ["C14", "C05"], "h_to_text", ["C14/to_text.c"], ["mmd.c", "d_string.c"], plain=True, lib=(), kind="bounded",
+      defines=["-DSN=3", "-DCN=2"] + _d, cbmc_flags=["--unwind", "8", "--unwinding-assertions"], bounds={"outline text<=": 3, "converted text<=": 2, "unwind": 8},
+      pre_instrument=["--remove-function-body-regex", "^(?!mmd_engine_convert_opml_to_text$|mmd_engine_convert_itmz_to_text$|mmd_convert_opml_string$|mmd_convert_itmz_string$|importer$|d_string_.*$|ensureStringBufferCanHold$|h_to_text$|verif_.*$|__CPROVER.*$).*"],
+      functions=["mmd_engine_convert_%s_to_text" % _nm, "d_string_new", "d_string_append_c_array"],
+      callees={"mmd_convert_%s_string" % _nm: "contract stub: asked for (0, length); frees the engine's buffer and installs the converted text and its length"},
+      min_obligations=10, timeout=300, cost=10, assumptions=[NOFAIL])
